@@ -47,6 +47,17 @@ WRITE_FUNCS = {"memcpy": (0, 2), "memmove": (0, 2), "memset": (0, 2), "std::memc
                "std::fill_n": (0, 1), "std::copy_n": (2, 1)}
 
 
+_TILING_CACHE = {}
+
+
+def _helper_tiling(fb, g):
+    key = (id(fb), g.key)
+    if key not in _TILING_CACHE:
+        _TILING_CACHE[key] = None  # recursion guard
+        _TILING_CACHE[key] = write_tiling(fb, g)
+    return _TILING_CACHE[key]
+
+
 def write_tiling(fb, fn):
     """Per path of builder fn, the positions of its raw writes as linear forms relative to
     payloadData.data() (symbol D) or to its own pointer parameter (symbol P).
@@ -100,6 +111,21 @@ def write_tiling(fb, fn):
             pos[d] = {"P": 1, 1: 0}
         sval = {}  # multi-definition scalar local -> constant it holds on this path
 
+        # values the branch outcomes of this path pin down: `padding == 0`, or `padding != 0` for a local defined as x & 1 / x % 2
+        pathval = {}
+        for a in p.atoms:
+            if a[0] != "cmp" or a[2] not in ("==", "!="):
+                continue
+            for x, y in ((a[4], a[5]), (a[5], a[4])):
+                xs = strip_all_casts(x)
+                cv = const_value(y)
+                if xs.get("k") == "ref" and xs.get("dk") == "local" and len(defs.get(xs["decl"], [])) == 1 and cv is not None:
+                    if a[2] == "==":
+                        pathval[xs["decl"]] = cv
+                    elif cv == 0:
+                        d0 = strip_all_casts(defs[xs["decl"]][0])
+                        if d0.get("k") == "bin" and ((d0.get("op") == "&" and const_value(d0["r"]) == 1) or (d0.get("op") == "%" and const_value(d0["r"]) == 2)):
+                            pathval[xs["decl"]] = 1
         ver = {}  # multi-definition local -> number of assignments seen so far on this path
 
         def stamp(x):
@@ -117,6 +143,8 @@ def write_tiling(fb, fn):
                 return pos[e["decl"]]
             if k == "ref" and e.get("decl") in sval:
                 return {1: sval[e["decl"]]}
+            if k == "ref" and e.get("decl") in pathval:
+                return {1: pathval[e["decl"]]}
             if k == "bin" and e.get("op") in ("+", "-"):
                 a, b = lin(e["l"], depth), lin(e["r"], depth)
                 if a is None or b is None:
@@ -205,11 +233,28 @@ def write_tiling(fb, fn):
                 d = strip_all_casts(n["l"])["decl"]
                 r = strip_all_casts(n["r"])
                 g = fb.resolve_call(r) if r.get("k") == "call" else None
-                if g is not None and g.name in CURSOR_BUILDERS and r.get("args"):
+                if g is not None and g.name not in CURSOR_BUILDERS and g.body is not None and g.key != fn.key and r.get("args") and g.params and \
+                        g.params[0]["t"].get("k") == "ptr" and not g.params[0]["t"].get("pconst") and (g.raw.get("rett") or {}).get("k") == "ptr" and \
+                        depth < 2 and g.cfg_raw:
+                    # any helper of the same shape as fillWithString: writes from its pointer parameter and returns the end — judged by its own tiling
+                    sub = _helper_tiling(fb, g)
+                    if sub is not None:
+                        for so in sub:
+                            out.append(("%s:%s" % (g.name.split("::")[-1], so[0]),) + tuple(so[1:]))
+                        if all(so[2] for so in sub) and any(so[0].startswith("returns-end") for so in sub):
+                            g_ok_helper = True
+                        else:
+                            g_ok_helper = False
+                    else:
+                        g_ok_helper = False
+                else:
+                    g_ok_helper = g is not None and g.name in CURSOR_BUILDERS
+                if g is not None and g_ok_helper and r.get("args"):
                     # a helper that writes from its pointer argument and returns the end of what it wrote
                     start = lin(r["args"][0])
                     key = "helper@%s" % (n.get("loc") or "").split(":", 1)[-1]
-                    ok = start is not None and (first and hdr is not None and eq(start, {"D": 1, 1: hdr}) or (not first and eq(start, prev_end)))
+                    ok = start is not None and ((first and hdr is not None and eq(start, {"D": 1, 1: hdr})) or (first and bool(ptr_params) and eq(start, {"P": 1, 1: 0})) or
+                                                (not first and eq(start, prev_end)))
                     out.append((key, n.get("loc"), ok, "%s continues at %s" % (g.name.split("::")[-1], fmt(start)),
                                 "%s is handed position %s but the previous write ended at %s: bytes in between keep whatever the buffer held" %
                                 (g.name.split("::")[-1], fmt(start), fmt(prev_end) if not first else "sizeof(Header)")))
@@ -220,6 +265,28 @@ def write_tiling(fb, fn):
                     state["last_write"] = n
                 else:
                     pos[d] = lin(n["r"])
+            elif k == "assign" and strip_all_casts(n["l"]).get("k") in ("un", "subscript") and \
+                    ((strip_all_casts(n["l"]).get("k") == "un" and strip_all_casts(n["l"]).get("op") == "*" and inside(lin(strip_all_casts(n["l"])["e"]))) or
+                     (strip_all_casts(n["l"]).get("k") == "subscript" and inside(lin(strip_all_casts(n["l"])["base"])) and
+                      const_value(strip_all_casts(n["l"])["idx"]) is not None)):
+                # a single element stored through the cursor
+                l0 = strip_all_casts(n["l"])
+                if l0.get("k") == "un":
+                    start = lin(l0["e"])
+                else:
+                    start = add(lin(l0["base"]), {1: const_value(l0["idx"])})
+                width = ((l0.get("t") or {}).get("bits") or 8) // 8
+                key = "write@%s" % (n.get("loc") or "").split(":", 1)[-1]
+                if first:
+                    want = {"D": 1, 1: hdr} if start.get("D") == 1 and hdr is not None else {"P": 1, 1: 0}
+                    out.append((key, n.get("loc"), eq(start, want), "first write at %s" % fmt(start),
+                                "the first write lands at %s, the variable part starts at %s" % (fmt(start), fmt(want))))
+                else:
+                    out.append((key, n.get("loc"), eq(start, prev_end), "starts at %s where the previous write ended" % fmt(start),
+                                "this store lands at %s but the previous write ended at %s" % (fmt(start), fmt(prev_end))))
+                state["prev_end"] = prev_end = add(start, {1: width})
+                state["first"] = first = False
+                state["last_write"] = n
             elif k == "call" and callee_name(n) in WRITE_FUNCS and len(n.get("args", [])) == 3:
                 di, li = WRITE_FUNCS[callee_name(n)]
                 start, ln = lin(n["args"][di]), lin(n["args"][li])
@@ -628,6 +695,11 @@ def run(ctx):
               "the stored string length does not derive from str.size() + 1")
     # parity at the point the length is serialised (first read of the length after its last modification)
     swaps = [c for c in fs.calls() if callee_name(c) == "ASAM::CMP::swapEndian"]
+    if not swaps:
+        # the length is handed to a helper that serialises it: the hand-over is the point where it must be even
+        swaps = [c for c in fs.calls() if fb.resolve_call(c) is not None and fb.resolve_call(c).body is not None and
+                 any(strip_all_casts(a).get("decl") == lenv for a in c.get("args", [])) and
+                 any(callee_name(x) == "ASAM::CMP::swapEndian" for x in fb.resolve_call(c).calls())]
     if not swaps:
         raise Broken("fillWithString: length is not serialised through swapEndian")
     ps = paths.enumerate_paths(fs)
